@@ -1275,7 +1275,20 @@ func (e *SEnv) havocTarget(m *SX, nh Heap) Heap {
 						a = &Addr{Base: base.V.T, T: p.Elem()}
 					}
 					a = a.extend(Sel{Field: fi, StructT: p.Elem()})
-					return g.store(nh, a, g.fresh("mod$"+m.Tok, g.sortOf(st.Field(fi).Type())))
+					nv := g.fresh("mod$"+m.Tok, g.sortOf(st.Field(fi).Type()))
+					// the new value is a value of the field's type: lengths are lengths (no claim about
+					// which array it points into: the callee may have allocated it)
+					switch ft := st.Field(fi).Type().Underlying().(type) {
+					case *types.Slice:
+						z := g.ilit(0)
+						e.fr.assume(and(g.ile(z, "(s_len "+nv+")"), g.ile("(s_len "+nv+")", "(s_cap "+nv+")"), g.ile(z, "(s_off "+nv+")"),
+							g.ile("(s_cap "+nv+")", g.maxLen()), g.ile("(s_off "+nv+")", g.maxLen())), "type facts of modified slice field")
+					case *types.Basic:
+						if isString(ft) {
+							e.fr.assume(and(g.ile(g.ilit(0), "(slen "+nv+")"), g.ile("(slen "+nv+")", g.maxLen())), "type facts of modified string field")
+						}
+					}
+					return g.store(nh, a, nv)
 				}
 			}
 		}
